@@ -48,7 +48,9 @@ BORROWED = {
     'C13': [('c08', ('SCHEMA',), 'per-epoch re-labelling runs the detectors, whose run filter C08 decides'),
             ('c06', ('LABEL-DEF',), 'per-epoch re-labelling with the cycles method is detect_bursts_cycles'),
             ('c07', ('LABEL-DEF',), 'per-epoch re-labelling with the amp method is detect_bursts_amp')],
-    'C14': [('c12', ('SWAP-UNSWAP',), 'BycycleGroup.recompute_edges writes into the rows compute_features_3d returned: they must be lists')],
+    'C14': [('c12', ('SWAP-UNSWAP',), 'BycycleGroup.recompute_edges writes into the rows compute_features_3d returned: they must be lists'),
+            ('c16', ('EDGE-DEF', 'EDGES-DEF'), 'the functional edge recomputation the object is measured against is the documented one: the object hands it tables of any '
+                                               'origin (loaded, windowed), so it must recompute the edge cycles of whatever table it is given')],
     'C16': [('c06', ('LABEL-DEF',), 'the edited table is re-labelled by detect_bursts_cycles')],
     'C17': [('c03', ('MID-DEF', 'ZEROX-DEF'), 'the midpoints the phase function indexes with are the arrays find_zerox returns')],
     'C19': [('c01', ('PAIRING',), 'a documented option can only be rejected if it reaches its validator unchanged: compute_cyclepoints forwards find_extrema\'s options as given')],
@@ -82,6 +84,7 @@ def shared_clauses(rep, model, pid, tier='quick'):
         c14.front_end(rep, model)
     if pid in HISTORY_ROOTS:
         common.no_history(rep, model, HISTORY_ROOTS[pid])
+        common.value_identity(rep, model, HISTORY_ROOTS[pid])
 
 
 def run_property(pid, tier, root):
